@@ -33,6 +33,7 @@ Definition dispatch (op : Z) (x : sx) : sx :=
   | 13 => C13.Run.run x
   | 113 => C13.Run.run_sparse x
   | 213 => C13.Run.run_encode_cat x
+  | 313 => C13.Run.run_encode_nested x
   | 14 => C14.Run.run x
   | 15 => C15.Run.run x
   | 16 => C16.Run.run x
